@@ -23,13 +23,15 @@ Local Open Scope nat_scope.
      insert         overwrites the first stored duplicate, leaves the others; an absent position is appended   insert_with_duplicates
      transpose      keeps the duplicates of every position in their order (stable counting sort)        transpose_duplicates
                     -- it IS from_triplets of the swapped triplet listing, field by field               transpose_is_stable_sort
+     order_independent with duplicates: construction depends on the input order only through the relative order of the
+                    triplets of one position                                                            from_triplets_same_duplicate_order
    and every in-range history refines the same history of list operations on the abstract matrix
    (i,j) |-> list of stored values: sp_refines_map without the NoDupKeys hypothesis                    history_with_duplicates
    Well-formedness is preserved in all cases (wfS_step, history_total above -- proved with duplicates allowed).
    Executable instances (a 2x2 storage holding (1,1) three times) and the answers of the Rust executor on the same
    input: Proofs/SparseDupExamples.v.
    ====================================================================================================== *)
-From OV Require Import Proofs.SparseDup Proofs.SparseDupOps Proofs.SparseDupHist Proofs.SparseDupTranspose Proofs.SparseDupExamples.
+From OV Require Import Proofs.SparseDup Proofs.SparseDupOps Proofs.SparseDupHist Proofs.SparseDupTranspose Proofs.SparseDupOrder Proofs.SparseDupExamples.
 
 (* the list of the values stored for (i,j), read off to_triplets: the values of the triplets (i, j, _) in the order of the listing *)
 Theorem dvals_listing : forall (A : Arith) (s : sparse A) i j, j < sp_cols s ->
@@ -226,6 +228,30 @@ Example history_with_duplicates_nonvacuous :   (* six steps on dup_s: two overwr
   wfS dup_s /\ ops_ok (sp_rows dup_s) (sp_cols dup_s) dup_ops /\ ~ NoDupKeys dup_s /\ length dup_ops = 6.
 Proof. split; [exact dup_s_wf|]. split; [exact dup_ops_ok|]. split; [exact dup_s_has_duplicates|reflexivity]. Qed.
 
+(* order_independent (above) with duplicates: two in-range triplet lists in which every position has the same sub-list of triplets (the same duplicates in the same relative order) give storages with the same value lists, lookups, dense entries and product entries everywhere *)
+Theorem from_triplets_same_duplicate_order : forall (A : Arith) r c (ts ts' : list (triplet A)),
+  (forall t, In t ts -> trow t < r /\ tcol t < c) -> (forall t, In t ts' -> trow t < r /\ tcol t < c) ->
+  (forall i j, i < r -> j < c -> filter (tmatch i j) ts = filter (tmatch i j) ts') ->
+  exists s s' D D', sp_from_triplets r c ts = Ok s /\ sp_from_triplets r c ts' = Ok s' /\
+    sp_to_dense s = Ok D /\ sp_to_dense s' = Ok D' /\
+    forall i j, i < r -> j < c ->
+      dvals s i j = dvals s' i j /\ sp_get s i j = sp_get s' i j /\ mget D i j = mget D' i j /\
+      sp_entry s i j = sp_entry s' i j.
+Proof. intros A r c ts ts'. exact (from_triplets_same_duplicate_order_lemma r c ts ts'). Qed.
+Check from_triplets_same_duplicate_order : forall (A : Arith) r c (ts ts' : list (triplet A)),
+  (forall t, In t ts -> trow t < r /\ tcol t < c) -> (forall t, In t ts' -> trow t < r /\ tcol t < c) ->
+  (forall i j, i < r -> j < c -> filter (tmatch i j) ts = filter (tmatch i j) ts') ->
+  exists s s' D D', sp_from_triplets r c ts = Ok s /\ sp_from_triplets r c ts' = Ok s' /\
+    sp_to_dense s = Ok D /\ sp_to_dense s' = Ok D' /\
+    forall i j, i < r -> j < c ->
+      dvals s i j = dvals s' i j /\ sp_get s i j = sp_get s' i j /\ mget D i j = mget D' i j /\
+      sp_entry s i j = sp_entry s' i j.
+Print Assumptions from_triplets_same_duplicate_order.
+Example from_triplets_same_duplicate_order_nonvacuous :   (* dup_ts and dup_ts' differ as lists and list the three (1,1) triplets in the same relative order *)
+  (forall t, In t dup_ts -> trow t < 2 /\ tcol t < 2) /\ (forall t, In t dup_ts' -> trow t < 2 /\ tcol t < 2) /\
+  (forall i j, i < 2 -> j < 2 -> filter (tmatch i j) dup_ts = filter (tmatch i j) dup_ts') /\ map (@tcol AQ) dup_ts <> map (@tcol AQ) dup_ts'.
+Proof. split; [exact dup_ts_in_range|]. split; [exact dup_ts'_in_range|]. split; [exact dup_ts_same_duplicate_order|]. vm_compute. discriminate. Qed.
+
 (* ---------------- the later imports of Props/C07.v (rounding half): they shadow [zero], [add], ... by the float ones ---------------- *)
 From Coq Require Import Reals Lra Lia.
 From OV Require Import Base.RoundModel Proofs.SparseBase Proofs.RoundDot Proofs.RoundSparse Proofs.RoundFlx Proofs.RoundExamples.
@@ -246,7 +272,7 @@ From OV Require Import Proofs.RoundSparseT.
    condition, and transposition preserves every entry sum (adjoint_with_duplicates).
    ====================================================================================================== *)
 From OV Require Proofs.Matrix.
-From OV Require Import Proofs.SparseDup Proofs.SparseDupOps Proofs.SparseDupMul Proofs.SparseDupExamples.
+From OV Require Import Proofs.SparseDup Proofs.SparseDupOps Proofs.SparseDupMul Proofs.SparseDupOrder Proofs.SparseDupExamples.
 
 (* the entry the products work with is the SUM of the values stored for the position (the definition of sp_entry, restated through dvals) *)
 Theorem sp_entry_is_sum : forall (A : Arith) (s : sparse A) i j, sp_entry s i j = suml (dvals s i j).
@@ -344,3 +370,24 @@ Example adjoint_with_duplicates_nonvacuous :   (* <y, A x> = <A^T y, x> = -7503 
   RingLaws AQ /\ wfS dup_s /\ length dup_x = sp_cols dup_s /\ length dup_y = sp_rows dup_s /\ ~ NoDupKeys dup_s /\
   fl_res flat_q (let* u := sp_mul dup_s dup_x in dot dup_y u) = [2; -7503; 1]%Z.
 Proof. split; [exact dup_RingLaws|]. split; [exact dup_s_wf|]. split; [reflexivity|]. split; [reflexivity|]. split; [exact dup_s_has_duplicates|]. vm_compute. reflexivity. Qed.
+
+(* the products do not depend on the order of the triplets at all, duplicates or not (lookups and to_dense do: Props/C06.v from_triplets_duplicates) *)
+Theorem from_triplets_products_order_independent : forall (A : Arith), RingLaws A -> forall r c (ts ts' : list (triplet A)),
+  Permutation ts ts' -> (forall t, In t ts -> trow t < r /\ tcol t < c) ->
+  exists s s', sp_from_triplets r c ts = Ok s /\ sp_from_triplets r c ts' = Ok s' /\
+    (forall i j, i < r -> j < c -> sp_entry s i j = sp_entry s' i j) /\
+    (forall x, length x = c -> sp_mul s x = sp_mul s' x) /\
+    (forall y, length y = r -> sp_tmul s y = sp_tmul s' y).
+Proof. intros A RL r c ts ts'. exact (from_triplets_products_order_independent_lemma RL r c ts ts'). Qed.
+Check from_triplets_products_order_independent : forall (A : Arith), RingLaws A -> forall r c (ts ts' : list (triplet A)),
+  Permutation ts ts' -> (forall t, In t ts -> trow t < r /\ tcol t < c) ->
+  exists s s', sp_from_triplets r c ts = Ok s /\ sp_from_triplets r c ts' = Ok s' /\
+    (forall i j, i < r -> j < c -> sp_entry s i j = sp_entry s' i j) /\
+    (forall x, length x = c -> sp_mul s x = sp_mul s' x) /\
+    (forall y, length y = r -> sp_tmul s y = sp_tmul s' y).
+Print Assumptions from_triplets_products_order_independent.
+Example from_triplets_products_order_independent_nonvacuous :   (* the reversed list: get(1,1) changes from 2 to 500, the products do not change *)
+  RingLaws AQ /\ Permutation dup_ts (rev dup_ts) /\ (forall t, In t dup_ts -> trow t < 2 /\ tcol t < 2) /\
+  fl_res (fun o : option AQ => flat_q (oval o)) (let* s := sp_from_triplets 2 2 dup_ts in sp_get s 1 1)
+  <> fl_res (fun o : option AQ => flat_q (oval o)) (let* s := sp_from_triplets 2 2 (rev dup_ts) in sp_get s 1 1).
+Proof. split; [exact dup_RingLaws|]. split; [apply Permutation_rev|]. split; [exact dup_ts_in_range|]. vm_compute. discriminate. Qed.
